@@ -5,7 +5,7 @@ import z3
 
 from .. import common, exprsem, relmodel, sqlmodel, sqlprogs, templates
 from ..driver import HOLDS, INCONCLUSIVE, UNDECIDED, VIOLATION
-from ..prog import (Env, IllTyped, build, cols_of, fmt, from_jsonable, make_op, ops_of, pyeval, pytree, sem_seq, sem_tree,
+from ..prog import (Env, IllFormed, IllTyped, build, cols_of, fmt, from_jsonable, make_op, ops_of, pyeval, pytree, sem_seq, sem_tree,
                     shared_nonkey, to_jsonable)
 from ..symx import Skip, explore
 
@@ -174,7 +174,10 @@ def run_shape(shape, tier):
             if "ref" not in cache:
                 cache["ref"] = relmodel.unordered(sem_seq(prog, env, prefer="r"))
             ref = cache["ref"]
-            got = relmodel.unordered(sem_tree(rel, env, prefer="r"))
+            try:
+                got = relmodel.unordered(sem_tree(rel, env, prefer="r"))
+            except IllFormed as e:
+                return obs + [("conformed tree is well-formed", False, {"why": str(e), "tree": str(rel)})]
             obs.append(("conform preserves rows", relmodel.mset_eq(got, ref), {"tree": str(rel)}))
             try:
                 ex = sq.to_executable(build_raw(prog, env))
